@@ -29,7 +29,7 @@ class Spec(pipeprops.PropSpec):
             "instances and some non-typing triple")
 
     def gen_cases(self, tier, rnd):
-        n = 6000 if tier == "thorough" else 450
+        n = 20000 if tier == "thorough" else 1500
         cases = []
         for i in range(n):
             r = random.Random(rnd.getrandbits(48))
